@@ -6,7 +6,7 @@ who-writes-run_on_npu. End-to-end NPU placement is not decided."""
 import ast
 import re
 
-from ..astutil import calls_in, call_name, dotted, norm, walk_no_nested
+from ..astutil import calls_in, call_name, dotted, norm, try_fold, walk_no_nested
 from ..cfg import cfg_of
 from ..core import AnalysisError
 from ..exprnorm import conjuncts
@@ -253,6 +253,13 @@ def run(repo, rep):
     rep.clause("C16-k", "every SOFTMAX type the checkers admit is lowered (no demotion after placement)")
     rep.clause("C16-l", "is_per_axis counts elements, so the per-axis constraint sees the reader's 1-D vectors")
     rep.clause("C16-m", "both reader entry points (file and in-memory) run the TFLite semantic checker on TFLite models")
+    rep.clause("C16-n", "an operator that stays on the CPU is written as it was read: a clone made for a trial rewrite owns its attribute dict (Operation.clone copies container members) [rule shared with C13-af]")
+    from .shared import clone_completeness as _cc16
+
+    if _cc16(repo, rep, "C16-n") < 20:
+        raise AnalysisError("Operation.clone: fewer than 20 members checked")
+    rep.clause("C16-o", "constraints decide what their report line says: 'new_axis_mask and shrink_axis_mask cannot both be set' (evaluated on a grid of mask pairs); 'the sum of the weights' is taken per output channel over the three other axes of the HWIO volume")
+    rule_round9(repo, rep)
     rule_round8(repo, rep)
     _so, _sem = repo.mod("tflite_supported_operators"), repo.mod("tflite_model_semantic")
     rule_round4(repo, rep, [("tflite_supported_operators", "TFLiteSupportedOperators", registrations(repo, _so, "TFLiteSupportedOperators")[1]),
@@ -846,3 +853,48 @@ def rule_round8(repo, rep):
                       f"semantic checkers applied after read_tflite: {checks}: on this path none of the TFLiteSemantic constraints the report lists is enforced (MAX_POOL int8 -> uint8 is accelerated through vela.convert_bytes)")
     if n < 2:
         raise AnalysisError(f"model_reader: {n} calls of tflite_reader.read_tflite")
+
+
+def rule_round9(repo, rep):
+    """(o) Two constraints whose report line states the rule exactly. constraint_axis_masks: the `valid` expression is folded for mask pairs
+    (0 / disjoint / overlapping) and must be true exactly when one of the masks is 0 - the NPU lowering handles one mask and asserts
+    otherwise. constraint_weights_limit: the reduction of |w| runs over axes (0, 1, 2) of the HWIO volume, leaving one sum per output
+    channel to compare with the limit."""
+    from .c03 import eval_with
+
+    sem = repo.mod("tflite_model_semantic")
+    f = sem.func("TFLiteSemantic.constraint_axis_masks")
+    site = "ethosu/vela/tflite_model_semantic.py:TFLiteSemantic.constraint_axis_masks"
+    if f is None:
+        raise AnalysisError("constraint_axis_masks not found")
+    names = {}
+    for a in ast.walk(f):
+        if isinstance(a, ast.Assign) and isinstance(a.targets[0], ast.Name) and isinstance(a.value, ast.Subscript) and isinstance(a.value.slice, ast.Constant) and str(a.value.slice.value).endswith("_mask"):
+            names[a.targets[0].id] = a.value.slice.value
+    val = [a.value for a in ast.walk(f) if isinstance(a, ast.Assign) and str(norm(a.targets[0])) == "valid"]
+    if len(val) != 1 or set(names.values()) != {"new_axis_mask", "shrink_axis_mask"}:
+        raise AnalysisError("constraint_axis_masks: mask variables / `valid` not found")
+    inv = {v: k for k, v in names.items()}
+    wrong = []
+    for na in (0, 1, 2, 3, 8):
+        for sa in (0, 1, 2, 3, 8):
+            got = eval_with(val[0], {inv["new_axis_mask"]: na, inv["shrink_axis_mask"]: sa})
+            if got is None:
+                raise AnalysisError(f"constraint_axis_masks: `{norm(val[0])}` not foldable")
+            if bool(got) != (na == 0 or sa == 0):
+                wrong.append((na, sa, bool(got)))
+    rep.check(not wrong, "C16-o", site, f"`valid = {norm(val[0])}`: true exactly when one of the two masks is 0 (25 pairs)",
+              (f"new_axis_mask={wrong[0][0]}, shrink_axis_mask={wrong[0][1]} is {'accepted' if wrong[0][2] else 'rejected'}: the report says the masks cannot both be set; the NPU lowering of STRIDED_SLICE handles one "
+               "mask (AssertionError in rewrite_stridedslice_output instead of CPU placement)") if wrong else "")
+    so = repo.mod("tflite_supported_operators")
+    g = so.func("TFLiteSupportedOperators.constraint_weights_limit")
+    gsite = "ethosu/vela/tflite_supported_operators.py:TFLiteSupportedOperators.constraint_weights_limit"
+    if g is None:
+        raise AnalysisError("constraint_weights_limit not found")
+    sums = [c for c in ast.walk(g) if isinstance(c, ast.Call) and (call_name(c) or "").split(".")[-1] == "sum"]
+    if len(sums) != 1:
+        raise AnalysisError(f"constraint_weights_limit: {len(sums)} sum calls")
+    ax = [k.value for k in sums[0].keywords if k.arg == "axis"] + sums[0].args[1:2]
+    got = try_fold(ax[0], default=None) if ax else None
+    rep.check(isinstance(got, (tuple, list)) and sorted(got) == [0, 1, 2], "C16-o", gsite, f"`{norm(sums[0])[:70]}` sums |w| over H, W and the input channels (one sum per output channel)",
+              f"axis = {got!r}: the sums are no longer per output channel (HWIO): a 1x1 kernel over 65025 channels of -128 (sum 8323200 > 8323072) is placed on the NPU")
